@@ -12,7 +12,7 @@ HARNESSES = ("auth_h",)
 MLS = ("auth",)
 THEOREMS = ["C08_do_work_total", "C08_identity_invariant", "C08_authenticated_only_after_valid_exchange", "C08_no_data_before_begin",
             "C08_bounded_rejections", "C08_buffer_bound", "C08_transport_gate", "C08_anonymous_only_if_enabled",
-            "C08_responses_partial", "C08_responses_partial_run", "C08_responses_refuted_odd_hex", "C08_responses_refuted_abort"]
+            "C08_responses_partial", "C08_responses_partial_run", "C08_responses_refuted_odd_hex", "C08_skip_blank_never_aborts"]
 
 PUID = os.getuid()
 DEFAULT_CTX = b"org_freedesktop_general"
@@ -775,6 +775,9 @@ def daemon_scripts(rnd, tier):
     S.append(("cookie", "cookie", [b"AUTH DBUS_COOKIE_SHA1 " + me + b"\r\n", ("R", b" ", b"daemonleg", "ok", None), b"BEGIN\r\n"]))
     S.append(("cookie-wrong", "cookie", [b"AUTH DBUS_COOKIE_SHA1 " + me + b"\r\n", ("R", b" ", b"daemonleg", "flip", None), b"BEGIN\r\n"]))
     S.append(("cookie-other-user", "cookie", [b"AUTH DBUS_COOKIE_SHA1 " + other + b"\r\n", b"BEGIN\r\n"]))
+    # blank followed by a bare LF / CR: used to abort the daemon (F08a, fixed by 94435c1); now ordinary lines
+    S.append(("blank-lf", "default", [b"AUTH \n\r\n", ok, b"BEGIN\r\n"]))
+    S.append(("blank-cr", "default", [ok, b"BEGIN \r\r\n"]))
     S.append(("big-line", "default", [b"A" * 9000, b"A" * 9000, b"\r\n" + ok]))
     n = 12 if tier == "quick" else 200
     al = [ok, b"AUTH EXTERNAL " + other + b"\r\n", b"AUTH\r\n", b"CANCEL\r\n", b"ERROR\r\n", b"BEGIN\r\n", b"NEGOTIATE_UNIX_FD\r\n", b"DATA\r\n",
@@ -981,26 +984,6 @@ def run_leg2(ctx, known, stats):
             else:
                 n_ok += 1
             c.close()
-        # the assertion class against a daemon of its own
-        if asserts:
-            d = rawbus.Daemon(info["daemon"])
-            daemons["abort"] = d
-            sk = socket.socket(socket.AF_UNIX, socket.SOCK_STREAM)
-            sk.connect(d.sock)
-            sk.sendall(b"\0AUTH \n\r\n")
-            lines, rest, eof = read_lines(sk, 1, 3.0)
-            sk.close()
-            t_end = time.time() + 5
-            while d.alive() and time.time() < t_end:
-                time.sleep(0.01)
-            if not d.alive() and ASSERT_TEXT in d.stderr() and "F08a" in known:
-                rep.known(known["F08a"], "daemon: \\0AUTH \\n\\r\\n")
-                stats["F08a"] = stats.get("F08a", 0) + 1
-            elif not d.alive():
-                rep.violation("daemon died on `AUTH \\n`: %s" % d.stderr()[-600:], {"leg": "daemon", "sent": b"\0AUTH \n\r\n".hex()})
-            else:
-                rep.violation("model predicts the skip_blank assertion for `AUTH \\n` but the daemon survived (answer %r)" % lines,
-                              {"leg": "daemon", "names": "correspondence (abort class) daemon vs Auth.Server.skip_blank"}, found_input=False)
     finally:
         for fl, d in daemons.items():
             rc, err = d.stop()
